@@ -519,6 +519,8 @@ def grams_for(prop, tier, seed):
         g += F.fam_dyck_inputs(tier)
         g += F.fam_repo(tier)
         g += F.fam_skipuntil(tier)
+        sr = F.fam_skiprules(tier)
+        g += sr[::6] if q else sr
         return g
     if prop == "C03":
         g = F.fam_ops(tier)
@@ -537,6 +539,9 @@ def grams_for(prop, tier, seed):
         return g
     if prop == "C04":
         g = F.fam_trail(tier)
+        for x in g:      # the same behaviours inside a longer string: text after the window must not be skipped or read
+            x["ctxs"] = [[cps(a), cps(b)] for a, b in [["", ""], ["", " "], ["", "#b#"], ["a", " b"], [" ", "#"]]]
+            x["maxlen"] = min(x.get("maxlen", 3), 3)
         k = F.fam_kinds(tier)
         g += k[::9] if q else k[::2]
         g += F.fam_rand(tier, seed, 6 if q else 30, "ws")
@@ -575,12 +580,17 @@ def grams_for(prop, tier, seed):
         return g
     if prop == "C06":
         g = F.fam_slices(tier)
+        for x in g[:: (6 if q else 2)]:   # stack entries must not be completed by text after the end of a Span
+            x["ctxs"] = [[cps(a), cps(b)] for a, b in [["", ""], ["", "a"], ["", "bb"], ["a", " "]]]
+            x["inputs"] = x["inputs"][::6]
         return g
     if prop == "C07":
         g = F.fam_kinds(tier)
         g += F.fam_rand(tier, seed, 10 if q else 60, "ws")
         ops = [x for x in F.fam_ops(tier) if x["id"].startswith("ow")]
         g += ops[::3] if q else ops
+        sr = F.fam_skiprules(tier)
+        g += sr[1::5] if q else sr
         return g
     raise KeyError(prop)
 
@@ -807,7 +817,7 @@ def check_C06(tier, seed):
     ctx = Ctx("C06", tier, seed)
     grams = grams_for("C06", tier, seed)
     ctx.notes["grammars"] = len(grams)
-    run_generic(ctx, "c06", grams, "sP", cmp_c06)
+    run_generic(ctx, "c06", grams, "snP", cmp_c06)
     return ctx.finish(rule=RULE_A + "Family: psh{,4} ~ ';' ~ OP ~ EOI for OP in PEEK[a..b], PEEK[a..], PEEK[..b] (a, b in -3..3 quick / -6..6 thorough), PEEK, POP, DROP, PEEK_ALL, POP_ALL and combinations, in normal / atomic / compound / non-atomic rules; pushed words a, bb, 'c ' (with implicit skip inside PUSH); inputs = stack words followed by every sub-slice in both orders and single edits. Decisive: verdict, offset, final stack, no panic.")
 
 
